@@ -37,9 +37,10 @@ def specclass(e, frozen_or_dnc=False):
         c["res"] = "ValueError"
         c["result"], c["result_kind"], c["same"] = {"t": "missing"}, "none", False
         out.append(("res (a changing in-place call reported as raising)", c))
-    c = _c(e)
-    c["args_same"] = False
-    out.append(("args_same", c))
+    if not (e["a"].get("op") == "update_repl" and frozen_or_dnc):          # (the replacement of a do_not_copy class is edited in place by declaration: not demanded there)
+        c = _c(e)
+        c["args_same"] = False
+        out.append(("args_same", c))
     return out
 
 
